@@ -3,7 +3,7 @@ import itertools
 import random
 
 from ..engine import Job
-from ..shims import MemFS, install_fs, install_log
+from ..shims import MemFS, install_fs, install_log, notrace
 
 import kconfcheck.check_deprecated_options as CD
 
@@ -11,8 +11,8 @@ install_log(CD)
 
 INFO = {
     "bounds": {
-        "quick": "fixed directory skeleton (IDF root, components/c1, projects p1, p1/main, p1/nested, p1/nested/main, p2, an orphan directory, an --includes directory) with symbolic file-system facts: per project directory {no CMakeLists, CMakeLists without project(), CMakeLists with project()}, per directory a rename file renaming {nothing, O1, O2}; five defaults files (each assigning O1, one also O2) checked outer-first, innermost-first and in seeded orders / subsets; project facts and the two global rename facts are fixed per job (sampled), the five project-local rename facts are symbolic",
-        "thorough": "all 27 project-fact combinations, more orders",
+        "quick": "fixed directory skeleton (IDF root, components/c1, components/c1/test_apps, projects p1, p1/main, p1/nested, p1/nested/main, p2, an orphan directory, an --includes directory, two further rename files that are only passed explicitly) with symbolic file-system facts: per project directory {no CMakeLists, CMakeLists without project(), project root} (12 of the 27 combinations, 6 fixed + 6 seeded), per directory {no rename file, rename file deprecating O1, rename file deprecating O2} (all directories symbolic, three of them two-valued in the quick tier); per job 8 argument orders: all files outer-first, all files innermost-first, 2 seeded subsets / orders, 4 seeded orders containing the explicitly passed rename files (adjacent, separated, first, last). The selectors are decoded by forking; the real checker then runs on concrete facts (untraced).",
+        "thorough": "all 27 project-fact combinations x every rename fact three-valued, 12 seeded + all 10 explicit-file orders",
     },
     "outside": ["directory trees outside the skeleton", "CMake syntax beyond the two CMakeLists texts", "the --exclude-submodules option"],
     "stubs": ["memfs behind kconfcheck.check_deprecated_options (open, os.path, os.walk)", "IDF_PATH points at the skeleton"],
@@ -34,6 +34,10 @@ DIRS = {
 PROJ_DIRS = ["p1", "pn", "p2"]
 REN_DIRS = ["c1", "c1t", "p1", "p1m", "pn", "pnm", "p2", "orph", "inc"]
 CHECKED = ["p1", "p1m", "pn", "pnm", "p2", "orph"]  # directories holding an sdkconfig.defaults
+# entries 6 and 7 of an order stand for two sdkconfig.rename files passed explicitly on the command line (they
+# deprecate O3 / O4 for every checked file, wherever they appear in the argument list)
+EXPLICIT = {6: (IDF + "/orphan/x1/sdkconfig.rename", 3), 7: (IDF + "/orphan/x2/sdkconfig.rename", 4)}
+EXPLICIT_ORDERS = [(6, 7, 0, 1, 2, 3, 4, 5), (0, 4, 6, 7, 5), (7, 6, 4, 5), (6, 0, 7, 4, 5, 2), (4, 5, 6), (5, 7, 4), (4, 5, 6, 7), (6, 7, 5, 4, 3), (4, 6, 7, 5), (6, 4, 7, 5)]
 ORDERS = list(itertools.permutations(range(6), 3)) + [(0, 1, 2, 3, 4, 5), (5, 4, 3, 2, 1, 0), (2, 0, 4, 1, 3, 5), (0, 3, 2), (3, 0), (0, 3)]
 
 
@@ -56,14 +60,17 @@ def _mkfs(proj, ren):
     for name, fact in ren.items():
         if fact:
             fs.put(DIRS[name] + "/sdkconfig.rename", "# renames\nCONFIG_O%d    CONFIG_NEW_%d\n" % (fact, fact))
+    for fn, num in EXPLICIT.values():
+        fs.makedirs(fn.rsplit("/", 1)[0], exist_ok=True)
+        fs.put(fn, "CONFIG_O%d CONFIG_NEW_%d\n" % (num, num))
     for name in CHECKED:
-        extra = "CONFIG_O2=5\n" if name == "p2" else ""
+        extra = "CONFIG_O2=5\nCONFIG_O3=y\n" if name == "p2" else ("CONFIG_O4=y\n" if name == "orph" else "")
         fs.put(DIRS[name] + "/sdkconfig.defaults", "# defaults\nCONFIG_O1=y\n" + extra + "CONFIG_OTHER=n\n")
     return fs
 
 
-def _spec(proj, ren, name):
-    """flagged? -- from the facts alone, no memo"""
+def _spec(proj, ren, name, explicit=()):
+    """flagged? -- from the facts alone, no memo; `explicit`: option numbers deprecated by explicitly passed files"""
 
     def nearest(dname):
         chain = {"p1": ["p1"], "p1m": ["p1"], "pn": ["pn", "p1"], "pnm": ["pn", "p1"], "p2": ["p2"], "orph": [], "c1": [], "c1t": ["c1t"], "inc": []}[dname]
@@ -72,8 +79,8 @@ def _spec(proj, ren, name):
                 return c
         return None
 
-    used = {1, 2} if name == "p2" else {1}
-    glob = {ren["c1"], ren["c1t"], ren["inc"]} - {0}
+    used = {1, 2, 3} if name == "p2" else ({1, 4} if name == "orph" else {1})
+    glob = ({ren["c1"], ren["c1t"], ren["inc"]} - {0}) | set(explicit)
     root = nearest(name)
     local = set()
     if root is not None:
@@ -90,7 +97,7 @@ def _run(fs, order):
     import os
 
     os.environ["IDF_PATH"] = IDF
-    files = [DIRS[CHECKED[i]] + "/sdkconfig.defaults" for i in order]
+    files = [EXPLICIT[i][0] if i in EXPLICIT else DIRS[CHECKED[i]] + "/sdkconfig.defaults" for i in order]
     files, g, loc, ign, cache, root = CD._prepare_deprecated_options(["/m/inc"], [], list(files))
     out = {}
     for f in files:
@@ -99,18 +106,29 @@ def _run(fs, order):
     return out
 
 
-def scope(ctx, rp1, rp1m, rpn, rpnm, rp2, rorph):
+def scope(ctx, rp1, rp1m, rpn, rpnm, rp2, rorph, rc1=None, rinc=None, rc1t=None):
     proj = dict(ctx["proj"])
-    ren = {"c1": ctx["rc1"], "inc": ctx["rinc"], "c1t": ctx.get("rc1t", 0)}
+    if rc1 is None:
+        ren = {"c1": ctx["rc1"], "inc": ctx["rinc"], "c1t": ctx.get("rc1t", 0)}
+    else:
+        ren = {"c1": _pick((0, 1, 2), rc1), "inc": _pick((0, 1), rinc), "c1t": _pick((0, 1, 2), rc1t)}
     proj["c1t"] = 2
     # decode the selectors into concrete facts (one fork per fact)
     for k, v in (("p1", rp1), ("p1m", rp1m), ("pn", rpn), ("pnm", rpnm), ("p2", rp2), ("orph", rorph)):
         ren[k] = _pick((0, 1, 2), v)
+    # from here on every fact is a concrete value (the selectors were decoded by forking above): the real checker
+    # runs on concrete inputs, which needs no symbolic tracing
+    with notrace():
+        return _verdicts(ctx, proj, ren)
+
+
+def _verdicts(ctx, proj, ren):
     results = [_run(_mkfs(proj, ren), o) for o in ctx["orders"]]
     for name in CHECKED:
         f = DIRS[name] + "/sdkconfig.defaults"
-        want = not _spec(proj, ren, name)  # check returns True for OK, False for "uses deprecated options"
-        for res in results:
+        for o, res in zip(ctx["orders"], results):
+            explicit = [EXPLICIT[i][1] for i in o if i in EXPLICIT]
+            want = not _spec(proj, ren, name, explicit)  # check returns True for OK, False for "uses deprecated options"
             if f in res and res[f] != want:
                 return False
     return True
@@ -124,19 +142,20 @@ def jobs(tier, seed, excluded=()):
         rest = [c for c in combos if c not in must]
         rng.shuffle(rest)
         combos = must + rest[:6]
-        norders, tmo = 2, 240
+        norders, tmo = 4, 240
     else:
-        norders, tmo = 3, 900
+        norders, tmo = 12, 600
     out = []
     for (a, b, c) in combos:
-        # all files outer-project-first, all files innermost-first, plus seeded subsets / orders
-        orders = [[0, 1, 2, 3, 4, 5], [5, 4, 3, 2, 1, 0]] + [list(o) for o in rng.sample(ORDERS, max(0, norders - 2))]
+        # all files outer-project-first, all files innermost-first, seeded subsets / orders, and orders with
+        # explicitly passed rename files
+        orders = [[0, 1, 2, 3, 4, 5], [5, 4, 3, 2, 1, 0]] + [list(o) for o in rng.sample(ORDERS, norders - 2)] + [list(o) for o in (EXPLICIT_ORDERS if tier == "thorough" else rng.sample(EXPLICIT_ORDERS, 4))]
         proj = {"p1": a, "pn": b, "p2": c}
-        rc1, rinc, rc1t = rng.choice((0, 0, 1, 2)), rng.choice((0, 0, 1)), rng.choice((0, 1, 1, 2))
-        names = ("rp1", "rp1m", "rpn", "rpnm", "rp2", "rorph")
+        names = ("rp1", "rp1m", "rpn", "rpnm", "rp2", "rorph", "rc1", "rinc", "rc1t")
         params = [(p, "int") for p in names]
-        for split in (0, 1, 2):
-            pre = " and ".join("0 <= %s <= 2" % p for p in names) + " and rpn == %d" % split + (" and rorph <= 1 and rp1m <= 1 and rp2 <= 1" if tier == "quick" else "")
-            smp = [[rng.randint(0, 2), rng.randint(0, 1), split, rng.randint(0, 2), rng.randint(0, 1), rng.randint(0, 1)] for _ in range(3)]
-            out.append(Job("C19", "C19-proj%d%d%d-g%d%d-n%d" % (a, b, c, rc1, rinc, split), "vk.props.c19", "scope", {"proj": proj, "orders": orders, "rc1": rc1, "rinc": rinc, "rc1t": rc1t}, params, pre, timeout=tmo, samples=smp, tree="skeleton p1=%d nested=%d p2=%d components-rename=%d components-test_apps-rename=%d includes-rename=%d nested-rename=%d" % (a, b, c, rc1, rc1t, rinc, split)))
+        for split, split2 in [(x, y) for x in (0, 1, 2) for y in ((0, 1, 2) if tier == "thorough" else (None,))]:
+            pre = " and ".join("0 <= %s <= %d" % (p, 1 if p == "rinc" else 2) for p in names) + " and rpn == %d" % split
+            pre += (" and rorph <= 1 and rp1m <= 1 and rp2 <= 1" if tier == "quick" else " and rc1t == %d" % split2)
+            smp = [[rng.randint(0, 2), rng.randint(0, 1), split, rng.randint(0, 2), rng.randint(0, 1), rng.randint(0, 1), rng.randint(0, 2), rng.randint(0, 1), rng.randint(0, 2) if split2 is None else split2] for _ in range(3)]
+            out.append(Job("C19", "C19-proj%d%d%d-n%d%s" % (a, b, c, split, "" if split2 is None else "-t%d" % split2), "vk.props.c19", "scope", {"proj": proj, "orders": orders}, params, pre, timeout=tmo, samples=smp, tree="skeleton p1=%d nested=%d p2=%d" % (a, b, c)))
     return out
